@@ -377,9 +377,9 @@ _l3_unseal = [
     T("l3_unseal_exact_public", "qt", mode="full", doc="L3: verify() path (purpose Public)"),
 ]
 _l3_seal = [
-    T("l3_seal_path_n2_m1_f0_a0_r3", "qt", timeout=1500, mem=16, mode="full", doc="L3: seal (library nonce path) -> Display -> FromStr -> unseal hands the backend back exactly the bytes it produced; nonce/encode/seal failures propagate"),
-    T("l3_seal_path_n0_m2_f2_a1_r4", "t", timeout=1500, mem=16, mode="full", doc="L3: same with footer and assertion (public-style empty nonce)"),
-    T("l3_seal_path_n3_m0_f1_a2_r5", "t", timeout=1500, mem=16, mode="full", doc="L3: same, empty message"),
+    T("l3_seal_path_n2_m1_f0_a0_r3", "t", timeout=3000, mem=28, mode="full", doc="L3: seal (library nonce path) -> Display -> FromStr -> unseal hands the backend back exactly the bytes it produced; nonce/encode/seal failures propagate"),
+    T("l3_seal_path_n0_m2_f2_a1_r4", "t", timeout=3000, mem=28, mode="full", doc="L3: same with footer and assertion (public-style empty nonce)"),
+    T("l3_seal_path_n3_m0_f1_a2_r5", "t", timeout=3000, mem=28, mode="full", doc="L3: same, empty message"),
     T("l3_unit_footer_present", "t", timeout=1500, mode="full", doc="L3: a token with a footer does not parse with the () footer type"),
     T("l3_unit_footer_absent_dot", "t", timeout=1500, mode="full", doc="L3: trailing '.' (empty footer) parses with () and prints without the dot"),
     T("l3_unit_footer_absent_nodot", "qt", timeout=1500, mode="full", doc="L3: no footer parses with () and prints identically"),
@@ -596,7 +596,7 @@ _vs = l2_backend("v4-sodium", "v4sodium", True, {"secret_len": 64, "pke_len": 96
 # quick tiers: measured costs (14 parallel jobs): v4/v2 token harness ~4 min, v3 token harness ~10-14 min (real ctr crate),
 # PKE ~10 min, PBKW >10 min / >16 GB -> PBKW round-trip and tamper harnesses are thorough-only
 _PBKW_T = ["pw_roundtrip", "pw_tamper", "pw_default_must"]
-_demote(_v3, ["c10_pke_key_wrong_len_32", "local_roundtrip_m3_f2", "local_tamper_payload_bit", "public_tamper_payload_bit", "local_rng_fail", "public_rng_fail", "pie_rng_fail", "pw_rng_fail", "nonce_is_draw", "pie_tamper_w0", "local_unseal_arbitrary_min"])
+_demote(_v3, ["c10_pke_key_wrong_len_32", "local_roundtrip_m3_f2", "public_roundtrip_m3_f2", "local_tamper_payload_bit", "public_tamper_payload_bit", "local_rng_fail", "public_rng_fail", "pie_rng_fail", "pw_rng_fail", "nonce_is_draw", "pie_tamper_w0", "local_unseal_arbitrary_min"])
 _x1 = {"C16": [H("v1", "proofs::pw_rng_fail_closed_at0", "t", timeout=900, mode="lean", replay="native:rng_fail", schema=[], replay_args={"backend": "v1", "op": "pw", "at": 0}, doc="v1 PBKW: failure of the salt draw only => Err"),
                H("v1", "proofs::pw_rng_fail_closed_at1", "t", timeout=900, mode="lean", replay="native:rng_fail", schema=[], replay_args={"backend": "v1", "op": "pw", "at": 1}, doc="v1 PBKW: failure of the nonce draw only => Err")],
        "C13": [H("v1", "proofs::c13_id_transcript_lid", "t", timeout=600, mem=14, mode="full", replay="none", doc="v1 hash_key: the SHA-384 input is exactly k1 ‖ .lid. ‖ key text; id = first 33 bytes")]}
